@@ -796,6 +796,34 @@ func regStream(c *cli.Ctx, r *emit.Rng, n int) error {
 			baseGoroutines = runtime.NumGoroutine() // leaked goroutines stay; do not blame the next case
 		}
 		w.Add(emit.Tup("2", emit.L(cit), emit.L(ops), emit.L(res)), accepted > 0 && rejected > 0, tags...)
+		if i%4 == 0 {
+			// wrappers over a nil Registerer (plain and nested, labels and prefix) are documented
+			// no-ops: Register returns nil, MustRegister does not panic, Unregister returns false
+			ls := genRegLayers(r, 2)
+			if len(ls) == 0 || r.Chance(1, 3) {
+				ls = append(ls, genRegLayers(r, 0)...)
+				if r.Bool() {
+					ls = append(ls, layer{isPrefix: true, prefix: regPrefix[r.Intn(len(regPrefix))]})
+				} else {
+					ls = append(ls, layer{labels: smallLabels(r, regLn, 2)})
+				}
+			}
+			col := colls[r.Intn(nc)].c
+			wr := wrapRegisterer(nil, ls)
+			rk, _ := safeRegister(wr, col)
+			mp := 0
+			func() {
+				defer func() {
+					if recover() != nil {
+						mp = 1
+					}
+				}()
+				wr.MustRegister(col, colls[r.Intn(nc)].c)
+			}()
+			un := safeUnregister(wr, col)
+			w.Add(emit.Tup("5", emLayers(ls), emit.Tup(emit.I(rk), emit.I(mp), emit.I(un))), len(ls) > 1,
+				fmt.Sprintf("reg:nil-registerer-depth=%d", len(ls)))
+		}
 	}
 	if len(directFailures) > 0 {
 		w.Extra["direct_failures"] = directFailures
